@@ -88,7 +88,7 @@ class C02(Prop):
         driver.quiet_process()
 
     def normalize(self, spec):
-        return dict(spec, waves=_renumber(spec['waves']))
+        return spec if 'bulk' in spec else dict(spec, waves=_renumber(spec['waves']))
 
     def strategy(self, tier):
         depth = 3 if tier == 'quick' else 5
@@ -197,7 +197,67 @@ class C02(Prop):
         return log, len(app._queue), exhausted, escaped, err.getvalue()
 
     # ------------------------------------------------------------------ oracle
+    def _bulk(self, spec):
+        """{"bulk": N, "prios": [...], "driver": "tick"}: N events with priorities cycling through ``prios`` are queued from
+        outside before ONE flush pass; the handler of every 97th one fires a follow-up with a very low priority value.
+        Expected: the pass dispatches exactly the N queued events sorted by (priority, fire order); every follow-up
+        comes after all of them, the follow-ups again sorted."""
+        n, prios = spec['bulk'], spec['prios']
+        log = []
+
+        class App(BaseComponent):
+            @H('node')
+            def _n(self, event, k, follow):
+                log.append(k)
+                if follow:
+                    self.fire(node(-k - 1, False), priority=-9)
+
+            @H('exception', channel='*')
+            def _x(self, etype, evalue, tb, handler=None, fevent=None):
+                log.append(('x', repr(evalue)[:80]))
+
+        app = App()
+        driver.settle(app, 10)
+        queued = []
+        with driver.captured_stderr() as err:
+            for k in range(n):
+                p = prios[k % len(prios)]
+                queued.append((p, k))
+                app.fire(node(k, k % 97 == 5), **({} if p == 0 and spec.get('defprio') else {'priority': p}))
+            app.flush()
+            first_pass = list(log)
+            left = driver.settle(app, 50)
+        classes = ['bulk', 'bulk>1024' if n > 1024 else 'bulk<=1024']
+
+        def bad(clause, msg):
+            return Result(False, clause, '%s [bulk of %d events, priorities %r]' % (msg, n, prios), True, classes)
+        if any(isinstance(l, tuple) for l in log):
+            return bad('stray-exception', 'exception event: %r' % ([l for l in log if isinstance(l, tuple)][:1],))
+        want = [k for p, k in sorted(queued, key=lambda t: (t[0], t[1]))]
+        if first_pass != want:
+            i = next((i for i, (a, b) in enumerate(zip(first_pass, want)) if a != b), min(len(first_pass), len(want)))
+            return bad('event-order', 'one flush pass over %d queued events dispatched %d; first difference at position %d: got %r, expected %r' % (
+                n, len(first_pass), i, first_pass[i:i + 3], want[i:i + 3]))
+        rest = log[len(first_pass):]
+        want_rest = [-k - 1 for k in want if k % 97 == 5]
+        if rest != want_rest:
+            return bad('event-order', 'follow-up events dispatched %r..., expected %r...' % (rest[:5], want_rest[:5]))
+        if left < 0 or len(app._queue):
+            return bad('no-quiescence', 'queue not drained')
+        if err.getvalue().strip():
+            return bad('stderr', err.getvalue()[-200:])
+        return Result(True, nontrivial=True, classes=classes)
+
+    def enumerate(self, tier):
+        out = []
+        for n in ((10, 1500, 5000) if tier == 'quick' else (10, 1023, 1024, 1025, 5000, 70000)):
+            for prios in ([0], [0, 0, 5, -1, 0.5], [3, 2, 1, 0, -1, -2]):
+                out.append({'bulk': n, 'prios': prios, 'driver': 'tick', 'defprio': bool(n % 2)})
+        return out
+
     def execute(self, spec):
+        if 'bulk' in spec:
+            return self._bulk(spec)
         waves = spec['waves'] if spec['driver'] == 'tick' else spec['waves'][:1]
         spec = dict(spec, waves=waves)
         log, left, exhausted, escaped, err = self._run_real(spec)
